@@ -171,13 +171,17 @@ class _Sink(pylogging.Handler):
     self.counts = {}
 
   def emit(self, record):
-    # format the message exactly as a real handler would (a bad format string
-    # or argument in a log call must still surface), then drop it
-    record.getMessage()
+    # Format the message exactly as a real handler would, then drop it.  A
+    # real handler does not propagate formatting errors to the caller
+    # (logging.Handler.handleError prints them to stderr), so neither does the
+    # sink: they are counted and reported as a probe, never as a raise of the
+    # library call.
+    try:
+      record.getMessage()
+    except Exception:  # pylint: disable=broad-except
+      self.counts["FORMAT_ERROR"] = self.counts.get("FORMAT_ERROR", 0) + 1
+      return
     self.counts[record.levelname] = self.counts.get(record.levelname, 0) + 1
-
-  def handleError(self, record):
-    raise  # pylint: disable=misplaced-bare-raise
 
 
 _SINK = None
